@@ -297,6 +297,19 @@ example : decision ⟨true, true, false, true, ⟨true, false⟩, true, .optiona
 example : decision ⟨true, true, true, true, ⟨true, false⟩, true, .optional, true, none⟩ = false := by decide
 example : decision ⟨false, false, true, false, ⟨false, false⟩, false, .required, true, none⟩ = false := by decide
 
+/-- dates as input of the decision: a certificate with validity window [notBefore, notAfter] passes chain
+    verification at time `now` iff it is trusted and — unless verify_time is off — notBefore ≤ now ≤ notAfter
+    (any sign: dates before 1970 are ordinary dates) -/
+theorem chainOk_window (verifyTime trusted : Bool) (now nb na : Int) :
+    chainOk verifyTime (PeerCert.ofWindow trusted now nb na) = true ↔
+      trusted = true ∧ (verifyTime = true → nb ≤ now ∧ now ≤ na) := by
+  rw [chainOk_iff]
+  simp [PeerCert.ofWindow, validAt]
+
+example : chainOk true (PeerCert.ofWindow true 1790000000 (-631152000) 2840140800) = true := by decide
+example : chainOk true (PeerCert.ofWindow true 1790000000 (-631152000) (-315619200)) = false := by decide
+example : chainOk false (PeerCert.ofWindow true 1790000000 (-631152000) (-315619200)) = true := by decide
+
 /-- a session is established iff the policy is satisfied and the effective protocol sets yield a version;
     the policy is read off the two `tls_config` records as the library does it -/
 theorem established_iff (cc sc : Config) (given covered : Bool) (scert : PeerCert) (ccert : Option PeerCert)
